@@ -176,15 +176,15 @@ Qed.
 Ltac ds_tac Hoff tac := repeat (apply ds_cons; cbn [a_write a_off a_val];
   [norm; first [left; exact Hoff | right; tac; reflexivity] | norm]); reflexivity.
 
-Lemma bar_info_run_not64 m d i :
+Lemma bar_info_run_not64 szf m d i :
   lenN (f_bars d) = 6 -> i < 6 -> f_cmd d < 65536 -> s_val (bar_at d i) < 2 ^ 32 ->
   (N.land (s_val (bar_at d i)) 7 =? 4) = false ->
-  exists tr, bar_info m d i =
-    (bar_decode (s_val (bar_at d i)) 0 (mask32 (s_val (slot_write (bar_at d i) ones32))), d, tr)
+  exists tr, bar_info_gen szf m d i =
+    (bar_decode szf (s_val (bar_at d i)) 0 (mask32 (s_val (slot_write (bar_at d i) ones32))), d, tr)
     /\ sizing_writes_safe tr = true /\ decode_safe (bar_vals d) d tr = true.
 Proof.
   intros Hlen Hi Hc Hv H64.
-  unfold bar_info. rewrite (bar_off_small m i Hi). exec0.
+  unfold bar_info_gen. rewrite (bar_off_small m i Hi). exec0.
   rewrite (cfg_read_bar d i Hi), H64. cbn [andb].
   rewrite cfg_read_sc.
   assert (Ew : w16 (f_status d * 65536 + f_cmd d) = f_cmd d) by (unfold w16; lia).
@@ -217,19 +217,19 @@ Proof.
   intros E H. rewrite <- E, <- (nthN_updN_other l i j x d H). apply updN_nthN_id.
 Qed.
 
-Lemma bar_info_run_64 m d i :
+Lemma bar_info_run_64 szf m d i :
   lenN (f_bars d) = 6 -> i < 5 -> f_cmd d < 65536 ->
   s_val (bar_at d i) < 2 ^ 32 -> s_val (bar_at d (i + 1)) < 2 ^ 32 ->
   (N.land (s_val (bar_at d i)) 7 =? 4) = true ->
-  exists tr, bar_info m d i =
-    (bar_decode (s_val (bar_at d i)) (s_val (bar_at d (i + 1)))
+  exists tr, bar_info_gen szf m d i =
+    (bar_decode szf (s_val (bar_at d i)) (s_val (bar_at d (i + 1)))
        (N.lor (s_val (slot_write (bar_at d i) ones32))
               (N.shiftl (s_val (slot_write (bar_at d (i + 1)) ones32)) 32)), d, tr)
     /\ sizing_writes_safe tr = true /\ decode_safe (bar_vals d) d tr = true.
 Proof.
   intros Hlen Hi Hc Hv Hv1 H64.
   assert (Hi6 : i < 6) by lia.
-  unfold bar_info. rewrite (bar_off_small m i Hi6). exec0.
+  unfold bar_info_gen. rewrite (bar_off_small m i Hi6). exec0.
   rewrite (cfg_read_bar d i Hi6), H64.
   replace (5 <=? i) with false by lia. cbn [andb].
   rewrite cfg_read_sc.
@@ -263,12 +263,12 @@ Proof.
 Qed.
 
 (* a 64-bit type in the last slot: refused before anything is written *)
-Lemma bar_info_run_err m d :
+Lemma bar_info_run_err szf m d :
   (N.land (s_val (bar_at d 5)) 7 =? 4) = true ->
-  exists tr, bar_info m d 5 = (Err EInvalidBarType, d, tr)
+  exists tr, bar_info_gen szf m d 5 = (Err EInvalidBarType, d, tr)
     /\ sizing_writes_safe tr = true /\ decode_safe (bar_vals d) d tr = true.
 Proof.
-  intros H64. unfold bar_info. rewrite (bar_off_small m 5) by lia. exec0.
+  intros H64. unfold bar_info_gen. rewrite (bar_off_small m 5) by lia. exec0.
   rewrite (cfg_read_bar d 5) by lia. rewrite H64. cbn [andb N.leb N.compare Pos.compare Pos.compare_cont].
   eexists. split; [reflexivity|]. cbn [app]. split; [sws|].
   apply ds_cons; cbn [a_write a_off a_val]; [right; reflexivity|reflexivity].
@@ -300,7 +300,7 @@ Lemma bar_info_prefix_run_not64 m d i :
   lenN (f_bars d) = 6 -> i < 6 -> f_cmd d < 65536 -> s_val (bar_at d i) < 2 ^ 32 ->
   (N.land (s_val (bar_at d i)) 7 =? 4) = false ->
   exists tr, bar_info_prefix m d i =
-    (bar_decode (s_val (bar_at d i)) 0 (mask32 (s_val (slot_write (bar_at d i) ones32))),
+    (bar_decode bar_size_prefix (s_val (bar_at d i)) 0 (mask32 (s_val (slot_write (bar_at d i) ones32))),
      set_cmd d (cmd_after_prefix (f_cmd d)), tr)
     /\ sizing_writes_safe tr = true /\ decode_safe (bar_vals d) d tr = true.
 Proof.
@@ -340,7 +340,7 @@ Lemma bar_info_prefix_run_64 m d i :
   s_val (bar_at d i) < 2 ^ 32 -> s_val (bar_at d (i + 1)) < 2 ^ 32 ->
   (N.land (s_val (bar_at d i)) 7 =? 4) = true ->
   exists tr, bar_info_prefix m d i =
-    (bar_decode (s_val (bar_at d i)) (s_val (bar_at d (i + 1)))
+    (bar_decode bar_size_prefix (s_val (bar_at d i)) (s_val (bar_at d (i + 1)))
        (N.lor (s_val (slot_write (bar_at d i) ones32))
               (N.shiftl (s_val (slot_write (bar_at d (i + 1)) ones32)) 32)),
      set_cmd d (cmd_after_prefix (f_cmd d)), tr)
@@ -391,35 +391,49 @@ Qed.
 (* type bits of a memory BAR: bits 2:1 = type, bit 3 = prefetchable *)
 Definition tbits (ty : N) (pf : bool) : N := 2 * ty + (if pf then 8 else 0).
 
+(* A BAR whose writable address bits are the contiguous run [k, m): size 2^k, the device decodes m
+   address bits.  m = 32 (64 for a 64-bit BAR) is the full decoder; m = 16 on an I/O BAR is the 16-bit
+   I/O decoder of PCI 3.0 6.2.5.1 (upper 16 bits hard-wired zero); m = 20 a below-1-MiB memory BAR;
+   m < 64 a 64-bit BAR of a device with fewer address lines. *)
 Inductive barspec :=
 | SUnimpl
-| SIo (k a : N)                       (* I/O, 2^k bytes at a *)
-| SMem (ty : N) (pf : bool) (k a : N) (* 32-bit register: ty 0 = anywhere in 32 bits, 1 = below 1 MiB *)
-| SMem64 (pf : bool) (k a : N).       (* two registers *)
+| SIo (k m a : N)                       (* I/O, 2^k bytes at a *)
+| SMem (ty : N) (pf : bool) (k m a : N) (* 32-bit register: ty 0 = anywhere in 32 bits, 1 = below 1 MiB *)
+| SMem64 (pf : bool) (k m a : N).       (* two registers *)
 
 Definition spec_ok (s : barspec) : Prop :=
   match s with
   | SUnimpl => True
-  | SIo k a => 2 <= k <= 31 /\ a mod 2 ^ k = 0 /\ a < 2 ^ 32
-  | SMem ty pf k a => ty <= 1 /\ 4 <= k <= 31 /\ a mod 2 ^ k = 0 /\ a < 2 ^ 32
-  | SMem64 pf k a => 4 <= k <= 63 /\ a mod 2 ^ k = 0 /\ a < 2 ^ 64
+  | SIo k m a => 2 <= k /\ k < m /\ m <= 32 /\ a mod 2 ^ k = 0 /\ a < 2 ^ m
+  | SMem ty pf k m a => ty <= 1 /\ 4 <= k /\ k < m /\ m <= 32 /\ a mod 2 ^ k = 0 /\ a < 2 ^ m
+  | SMem64 pf k m a => 4 <= k /\ k < m /\ m <= 64 /\ a mod 2 ^ k = 0 /\ a < 2 ^ m
   end.
-(* the register(s): all bits below k hard-wired (type bits as encoded, address bits zero),
-   all address bits >= k writable; unimplemented = every bit hard-wired zero *)
+(* the full decoders (all address bits >= k writable): what the code before F11 handled *)
+Definition spec_full (s : barspec) : Prop :=
+  match s with
+  | SUnimpl => True
+  | SIo k m a => m = 32
+  | SMem ty pf k m a => m = 32
+  | SMem64 pf k m a => m = 64
+  end.
+(* hard-wired bits of a 32-bit register whose writable bits are [k, m) *)
+Definition fmask (k m : N) : N := N.lor (N.ones k) (N.ldiff ones32 (N.ones m)).
+(* the register(s): bits below k hard-wired (type bits as encoded, address bits zero), bits >= m
+   hard-wired zero, address bits in [k, m) writable; unimplemented = every bit hard-wired zero *)
 Definition spec_slots (s : barspec) : list slot :=
   match s with
   | SUnimpl => [mkSlot 0 ones32 0]
-  | SIo k a => [mkSlot 1 (N.ones k) (a + 1)]
-  | SMem ty pf k a => [mkSlot (2 + ty) (N.ones k) (a + tbits ty pf)]
-  | SMem64 pf k a => [mkSlot 4 (N.ones (N.min k 32)) (a mod 2 ^ 32 + tbits 2 pf);
-                      mkSlot 5 (N.ones (k - 32)) (a / 2 ^ 32)]
+  | SIo k m a => [mkSlot 1 (fmask k m) (a + 1)]
+  | SMem ty pf k m a => [mkSlot (2 + ty) (fmask k m) (a + tbits ty pf)]
+  | SMem64 pf k m a => [mkSlot 4 (fmask (N.min k 32) (N.min m 32)) (a mod 2 ^ 32 + tbits 2 pf);
+                        mkSlot 5 (fmask (k - 32) (m - 32)) (a / 2 ^ 32)]
   end.
 Definition spec_truth (s : barspec) : option barinfo :=
   match s with
   | SUnimpl => None
-  | SIo k a => Some (BarIO a (2 ^ k))
-  | SMem ty pf k a => Some (BarMem ty pf a (2 ^ k))
-  | SMem64 pf k a => Some (BarMem 2 pf a (2 ^ k))
+  | SIo k m a => Some (BarIO a (2 ^ k))
+  | SMem ty pf k m a => Some (BarMem ty pf a (2 ^ k))
+  | SMem64 pf k m a => Some (BarMem 2 pf a (2 ^ k))
   end.
 (* the BAR occupies the registers from slot i on, and fits *)
 Definition placed (d : pcifn) (i : N) (s : barspec) : Prop :=
@@ -439,7 +453,7 @@ Proof.
 Qed.
 
 (* what is read back after writing all ones: type bits | writable bits *)
-Definition rb (t j : N) : N := N.lor t (N.ldiff (w32 ones32) (N.ones j)).
+Definition rb (t k m : N) : N := N.lor t (N.ldiff (w32 ones32) (fmask k m)).
 
 Lemma land_ones_low j x t : x mod 2 ^ j = 0 -> t < 2 ^ j -> N.land (N.ones j) (x + t) = t.
 Proof.
@@ -451,10 +465,37 @@ Proof.
   apply N.mod_small. exact Ht.
 Qed.
 
-Lemma slot_rb kk j x t : x mod 2 ^ j = 0 -> t < 2 ^ j ->
-  s_val (slot_write (mkSlot kk (N.ones j) (x + t)) ones32) = rb t j.
+(* a multiple of 2^k below 2^m, plus less than 2^k, stays below 2^m *)
+Lemma field_bound k m x t : k <= m -> x mod 2 ^ k = 0 -> x < 2 ^ m -> t < 2 ^ k -> x + t < 2 ^ m.
 Proof.
-  intros Hx Ht. unfold slot_write, rb. cbn [s_val s_mask]. rewrite (land_ones_low j x t Hx Ht). reflexivity.
+  intros Hkm Hx Hlt Ht.
+  assert (Hp : 2 ^ k <> 0) by (apply N.pow_nonzero; discriminate).
+  assert (E : x = (x / 2 ^ k) * 2 ^ k).
+  { pose proof (N.div_mod x (2 ^ k) Hp) as D. rewrite Hx, N.add_0_r, N.mul_comm in D. exact D. }
+  assert (Em : 2 ^ m = 2 ^ (m - k) * 2 ^ k) by (rewrite <- N.pow_add_r; f_equal; lia).
+  set (q := x / 2 ^ k) in *. set (P := 2 ^ k) in *. set (Q := 2 ^ (m - k)) in *.
+  rewrite E, Em in *.
+  assert (Hq : q < Q) by (apply (N.mul_lt_mono_pos_r P); [lia|exact Hlt]).
+  assert (Hq1 : (q + 1) * P <= Q * P) by (apply N.mul_le_mono_r; lia).
+  lia.
+Qed.
+
+(* the hard-wired bits of the register keep exactly the bits below k of a well-formed content *)
+Lemma land_fmask k m x t : k <= m -> x mod 2 ^ k = 0 -> x < 2 ^ m -> t < 2 ^ k ->
+  N.land (fmask k m) (x + t) = t.
+Proof.
+  intros Hkm Hx Hlt Ht. unfold fmask. rewrite N.land_lor_distr_l.
+  rewrite (land_ones_low k x t Hx Ht).
+  rewrite N.ldiff_ones_r, N.shiftl_mul_pow2, N.land_comm.
+  rewrite (land_low_high (x + t) _ m (field_bound k m x t Hkm Hx Hlt Ht)).
+  apply N.lor_0_r.
+Qed.
+
+Lemma slot_rb kk k m x t : k <= m -> x mod 2 ^ k = 0 -> x < 2 ^ m -> t < 2 ^ k ->
+  s_val (slot_write (mkSlot kk (fmask k m) (x + t)) ones32) = rb t k m.
+Proof.
+  intros Hkm Hx Hlt Ht. unfold slot_write, rb. cbn [s_val s_mask].
+  rewrite (land_fmask k m x t Hkm Hx Hlt Ht). reflexivity.
 Qed.
 
 Lemma pow2_le_16 j : 4 <= j -> 16 <= 2 ^ j.
@@ -472,45 +513,99 @@ Proof.
   rewrite (N.land_ones a k), H. apply N.land_0_l.
 Qed.
 
-(* --- the sizing computation, for every (type bits, log2 size): finite sweeps --- *)
-Definition sweep_mem32 : bool :=
-  forallb (fun k => forallb (fun t =>
-      (bar_size false (mask32 (rb t k)) =? 2 ^ k) && negb (mask32 (rb t k) =? 0)) (seqN 0 16)) (seqN 4 28).
-Definition sweep_io : bool :=
-  forallb (fun k => (w32 (bar_size true (mask32 (rb 1 k))) =? 2 ^ k) && negb (mask32 (rb 1 k) =? 0)) (seqN 2 30).
-Definition mask64 (t k : N) : N := N.lor (rb t (N.min k 32)) (N.shiftl (rb 0 (k - 32)) 32).
-Definition sweep_mem64 : bool :=
-  forallb (fun k => forallb (fun t =>
-      (bar_size false (mask64 t k) =? 2 ^ k) && negb (mask64 t k =? 0)) (seqN 0 16)) (seqN 4 60).
+(* --- the sizing computation, for every (type bits, k, m): finite sweeps --- *)
+Definition mask64 (t k m : N) : N :=
+  N.lor (rb t (N.min k 32) (N.min m 32)) (N.shiftl (rb 0 (k - 32) (m - 32)) 32).
+(* the statement about one size computation `szf`, for the three shapes *)
+Definition ok_mem32 (szf : bool -> N -> N) (t k m : N) : bool :=
+  (szf false (mask32 (rb t k m)) =? 2 ^ k) && negb (mask32 (rb t k m) =? 0).
+Definition ok_io (szf : bool -> N -> N) (k m : N) : bool :=
+  (w32 (szf true (mask32 (rb 1 k m))) =? 2 ^ k) && negb (mask32 (rb 1 k m) =? 0).
+Definition ok_mem64 (szf : bool -> N -> N) (t k m : N) : bool :=
+  (szf false (mask64 t k m) =? 2 ^ k) && negb (mask64 t k m =? 0).
+(* all (k, m) with lo <= k < m <= top, all 16 values of the low four bits *)
+Lemma sweep_mem32 :
+  forallb (fun k => forallb (fun m => (m <=? k) ||
+     forallb (fun t => ok_mem32 bar_size t k m) (seqN 0 16)) (seqN 5 28)) (seqN 4 28) = true.
+Proof. vm_compute. reflexivity. Qed.
+Lemma sweep_io :
+  forallb (fun k => forallb (fun m => (m <=? k) || ok_io bar_size k m) (seqN 3 30)) (seqN 2 30) = true.
+Proof. vm_compute. reflexivity. Qed.
+Lemma sweep_mem64 :
+  forallb (fun k => forallb (fun m => (m <=? k) ||
+     forallb (fun t => ok_mem64 bar_size t k m) (seqN 0 16)) (seqN 5 60)) (seqN 4 60) = true.
+Proof. vm_compute. reflexivity. Qed.
+(* the computation before F11 is right for the full decoders only *)
+Lemma sweep_prefix_full :
+  forallb (fun k => forallb (fun t => ok_mem32 bar_size_prefix t k 32) (seqN 0 16)) (seqN 4 28) = true
+  /\ forallb (fun k => ok_io bar_size_prefix k 32) (seqN 2 30) = true
+  /\ forallb (fun k => forallb (fun t => ok_mem64 bar_size_prefix t k 64) (seqN 0 16)) (seqN 4 60) = true.
+Proof. repeat split; vm_compute; reflexivity. Qed.
 
-Lemma size_mem32 k t : 4 <= k <= 31 -> t < 16 ->
-  bar_size false (mask32 (rb t k)) = 2 ^ k /\ mask32 (rb t k) <> 0.
+Lemma size_mem32 k m t : 4 <= k -> k < m -> m <= 32 -> t < 16 -> ok_mem32 bar_size t k m = true.
 Proof.
-  intros Hk Ht.
-  assert (S : sweep_mem32 = true) by (vm_compute; reflexivity).
+  intros Hk Hkm Hm Ht.
+  pose proof sweep_mem32 as S.
   pose proof (range_forallb _ _ _ S k ltac:(cbn; lia)) as S1. cbv beta in S1.
-  pose proof (range_forallb _ _ _ S1 t ltac:(cbn; lia)) as S2. cbv beta in S2.
-  apply andb_prop in S2. destruct S2 as [A B]. split; [apply N.eqb_eq; exact A|].
-  apply negb_true_iff, N.eqb_neq in B. exact B.
+  pose proof (range_forallb _ _ _ S1 m ltac:(cbn; lia)) as S2. cbv beta in S2.
+  replace (m <=? k) with false in S2 by lia. cbn [orb] in S2.
+  exact (range_forallb _ _ _ S2 t ltac:(cbn; lia)).
 Qed.
-Lemma size_io k : 2 <= k <= 31 ->
-  w32 (bar_size true (mask32 (rb 1 k))) = 2 ^ k /\ mask32 (rb 1 k) <> 0.
+Lemma size_io k m : 2 <= k -> k < m -> m <= 32 -> ok_io bar_size k m = true.
 Proof.
-  intros Hk.
-  assert (S : sweep_io = true) by (vm_compute; reflexivity).
-  pose proof (range_forallb _ _ _ S k ltac:(cbn; lia)) as S2. cbv beta in S2.
-  apply andb_prop in S2. destruct S2 as [A B]. split; [apply N.eqb_eq; exact A|].
-  apply negb_true_iff, N.eqb_neq in B. exact B.
-Qed.
-Lemma size_mem64 k t : 4 <= k <= 63 -> t < 16 ->
-  bar_size false (mask64 t k) = 2 ^ k /\ mask64 t k <> 0.
-Proof.
-  intros Hk Ht.
-  assert (S : sweep_mem64 = true) by (vm_compute; reflexivity).
+  intros Hk Hkm Hm.
+  pose proof sweep_io as S.
   pose proof (range_forallb _ _ _ S k ltac:(cbn; lia)) as S1. cbv beta in S1.
-  pose proof (range_forallb _ _ _ S1 t ltac:(cbn; lia)) as S2. cbv beta in S2.
-  apply andb_prop in S2. destruct S2 as [A B]. split; [apply N.eqb_eq; exact A|].
-  apply negb_true_iff, N.eqb_neq in B. exact B.
+  pose proof (range_forallb _ _ _ S1 m ltac:(cbn; lia)) as S2. cbv beta in S2.
+  replace (m <=? k) with false in S2 by lia. exact S2.
+Qed.
+Lemma size_mem64 k m t : 4 <= k -> k < m -> m <= 64 -> t < 16 -> ok_mem64 bar_size t k m = true.
+Proof.
+  intros Hk Hkm Hm Ht.
+  pose proof sweep_mem64 as S.
+  pose proof (range_forallb _ _ _ S k ltac:(cbn; lia)) as S1. cbv beta in S1.
+  pose proof (range_forallb _ _ _ S1 m ltac:(cbn; lia)) as S2. cbv beta in S2.
+  replace (m <=? k) with false in S2 by lia. cbn [orb] in S2.
+  exact (range_forallb _ _ _ S2 t ltac:(cbn; lia)).
+Qed.
+Lemma size_prefix_full :
+  (forall k t, 4 <= k <= 31 -> t < 16 -> ok_mem32 bar_size_prefix t k 32 = true)
+  /\ (forall k, 2 <= k <= 31 -> ok_io bar_size_prefix k 32 = true)
+  /\ (forall k t, 4 <= k <= 63 -> t < 16 -> ok_mem64 bar_size_prefix t k 64 = true).
+Proof.
+  destruct sweep_prefix_full as (S1 & S2 & S3).
+  split; [|split].
+  - intros k t Hk Ht. pose proof (range_forallb _ _ _ S1 k ltac:(cbn; lia)) as A. cbv beta in A.
+    exact (range_forallb _ _ _ A t ltac:(cbn; lia)).
+  - intros k Hk. exact (range_forallb _ _ _ S2 k ltac:(cbn; lia)).
+  - intros k t Hk Ht. pose proof (range_forallb _ _ _ S3 k ltac:(cbn; lia)) as A. cbv beta in A.
+    exact (range_forallb _ _ _ A t ltac:(cbn; lia)).
+Qed.
+
+(* what a size computation must achieve for a given BAR *)
+Definition size_fact (szf : bool -> N -> N) (s : barspec) : Prop :=
+  match s with
+  | SUnimpl => True
+  | SIo k m a => ok_io szf k m = true
+  | SMem ty pf k m a => ok_mem32 szf (tbits ty pf) k m = true
+  | SMem64 pf k m a => ok_mem64 szf (tbits 2 pf) k m = true
+  end.
+Lemma tbits_lt ty pf : ty <= 2 -> tbits ty pf < 16.
+Proof. intros H. unfold tbits. destruct pf; lia. Qed.
+Lemma size_fact_now s : spec_ok s -> size_fact bar_size s.
+Proof.
+  destruct s as [|k m a|ty pf k m a|pf k m a]; cbn [spec_ok size_fact]; auto.
+  - intros (Hk & Hkm & Hm & _). apply size_io; assumption.
+  - intros (Hty & Hk & Hkm & Hm & _). apply size_mem32; try assumption. apply tbits_lt. lia.
+  - intros (Hk & Hkm & Hm & _). apply size_mem64; try assumption. apply tbits_lt. lia.
+Qed.
+Lemma size_fact_prefix s : spec_ok s -> spec_full s -> size_fact bar_size_prefix s.
+Proof.
+  destruct size_prefix_full as (P1 & P2 & P3).
+  destruct s as [|k m a|ty pf k m a|pf k m a]; cbn [spec_ok spec_full size_fact]; auto.
+  - intros (Hk & Hkm & Hm & _) ->. apply P2. lia.
+  - intros (Hty & Hk & Hkm & Hm & _) ->. apply P1; [lia|apply tbits_lt; lia].
+  - intros (Hk & Hkm & Hm & _) ->. apply P3; [lia|apply tbits_lt; lia].
 Qed.
 
 (* --- decoding kind / address / prefetchable from the register value --- *)
@@ -527,11 +622,11 @@ Proof. change 4294967280 with (N.shiftl (N.ones 28) 4). apply land_field. Qed.
 Lemma land_fffffffc x : N.land x 4294967292 = ((x / 4) mod 1073741824) * 4.
 Proof. change 4294967292 with (N.shiftl (N.ones 30) 2). apply land_field. Qed.
 
-Lemma decode_none v top : bar_decode v top 0 = Ok None.
+Lemma decode_none szf v top : bar_decode szf v top 0 = Ok None.
 Proof. reflexivity. Qed.
 
-Lemma decode_io a top sm : a mod 4 = 0 -> a < 2 ^ 32 -> sm <> 0 ->
-  bar_decode (a + 1) top sm = Ok (Some (BarIO a (w32 (bar_size true sm)))).
+Lemma decode_io szf a top sm : a mod 4 = 0 -> a < 2 ^ 32 -> sm <> 0 ->
+  bar_decode szf (a + 1) top sm = Ok (Some (BarIO a (w32 (szf true sm)))).
 Proof.
   intros Ha Hlt Hsm. unfold bar_decode.
   rewrite land_1. replace ((a + 1) mod 2 =? 1) with true by (change (2 ^ 32) with 4294967296 in Hlt; lia).
@@ -539,9 +634,9 @@ Proof.
   do 3 f_equal. change (2 ^ 32) with 4294967296 in Hlt. lia.
 Qed.
 
-Lemma decode_mem ty pf alo top sm : ty <= 2 -> alo mod 16 = 0 -> alo < 2 ^ 32 -> sm <> 0 ->
-  bar_decode (alo + tbits ty pf) top sm =
-  Ok (Some (BarMem ty pf (N.lor alo (N.shiftl top 32)) (bar_size false sm))).
+Lemma decode_mem szf ty pf alo top sm : ty <= 2 -> alo mod 16 = 0 -> alo < 2 ^ 32 -> sm <> 0 ->
+  bar_decode szf (alo + tbits ty pf) top sm =
+  Ok (Some (BarMem ty pf (N.lor alo (N.shiftl top 32)) (szf false sm))).
 Proof.
   intros Hty Ha Hlt Hsm. unfold bar_decode. change (2 ^ 32) with 4294967296 in Hlt.
   apply N.eqb_neq in Hsm. rewrite Hsm.
@@ -573,73 +668,101 @@ Proof.
     rewrite N.mul_assoc, N.div_mul by (apply N.pow_nonzero; discriminate).
     apply N.mod_mul. apply N.pow_nonzero. discriminate.
 Qed.
+(* the two halves of an address below 2^m *)
+Lemma lo_half_bound a m : a < 2 ^ m -> a mod 2 ^ 32 < 2 ^ N.min m 32.
+Proof.
+  intros H. destruct (N.le_gt_cases m 32) as [Hm|Hm].
+  - replace (N.min m 32) with m by lia.
+    assert (a < 2 ^ 32) by (apply N.lt_le_trans with (2 ^ m); [exact H|apply N.pow_le_mono_r; lia]).
+    rewrite N.mod_small; assumption.
+  - replace (N.min m 32) with 32 by lia. apply N.mod_lt. discriminate.
+Qed.
+Lemma hi_half_bound a m : a < 2 ^ m -> a / 2 ^ 32 < 2 ^ (m - 32).
+Proof.
+  intros H. destruct (N.le_gt_cases m 32) as [Hm|Hm].
+  - replace (m - 32) with 0 by lia.
+    assert (a < 2 ^ 32) by (apply N.lt_le_trans with (2 ^ m); [exact H|apply N.pow_le_mono_r; lia]).
+    rewrite N.div_small by assumption. reflexivity.
+  - apply N.div_lt_upper_bound; [discriminate|]. rewrite <- N.pow_add_r.
+    replace (32 + (m - 32)) with m by lia. exact H.
+Qed.
 
-(* what is proved about one probe, for either version of the code *)
-Definition probe_ok (r : result) (d : pcifn) (s : barspec) : Prop :=
-  exists tr, r = (Ok (spec_truth s), d, tr)
-    /\ sizing_writes_safe tr = true /\ decode_safe (bar_vals d) d tr = true.
-
-(* the shared core: from the symbolic-execution lemmas to the truth of a well-formed BAR *)
-Lemma probe_core (bi : pcifn -> N -> result) (fin : pcifn -> pcifn) d i s :
+(* the shared core: from the symbolic-execution lemmas to the truth of a well-formed BAR, for any
+   version of the code (bi), what it leaves behind (fin) and any size computation that is right for
+   this BAR *)
+Lemma probe_core (szf : bool -> N -> N) (bi : pcifn -> N -> result) (fin : pcifn -> pcifn) d i s :
   (forall i, i < 6 -> s_val (bar_at d i) < 2 ^ 32 -> (N.land (s_val (bar_at d i)) 7 =? 4) = false ->
-     exists tr, bi d i = (bar_decode (s_val (bar_at d i)) 0 (mask32 (s_val (slot_write (bar_at d i) ones32))), fin d, tr)
+     exists tr, bi d i = (bar_decode szf (s_val (bar_at d i)) 0 (mask32 (s_val (slot_write (bar_at d i) ones32))), fin d, tr)
        /\ sizing_writes_safe tr = true /\ decode_safe (bar_vals d) d tr = true) ->
   (forall i, i < 5 -> s_val (bar_at d i) < 2 ^ 32 -> s_val (bar_at d (i + 1)) < 2 ^ 32 ->
      (N.land (s_val (bar_at d i)) 7 =? 4) = true ->
-     exists tr, bi d i = (bar_decode (s_val (bar_at d i)) (s_val (bar_at d (i + 1)))
+     exists tr, bi d i = (bar_decode szf (s_val (bar_at d i)) (s_val (bar_at d (i + 1)))
          (N.lor (s_val (slot_write (bar_at d i) ones32)) (N.shiftl (s_val (slot_write (bar_at d (i + 1)) ones32)) 32)),
          fin d, tr)
        /\ sizing_writes_safe tr = true /\ decode_safe (bar_vals d) d tr = true) ->
-  spec_ok s -> placed d i s ->
+  spec_ok s -> size_fact szf s -> placed d i s ->
   exists tr, bi d i = (Ok (spec_truth s), fin d, tr)
        /\ sizing_writes_safe tr = true /\ decode_safe (bar_vals d) d tr = true.
 Proof.
-  intros R32 R64 Hok Hpl.
-  destruct s as [|k a|ty pf k a|pf k a]; unfold placed, spec_slots in Hpl; cbn [spec_ok] in Hok.
+  intros R32 R64 Hok Hsz Hpl.
+  destruct s as [|k m a|ty pf k m a|pf k m a]; unfold placed, spec_slots in Hpl; cbn [spec_ok] in Hok;
+    cbn [size_fact] in Hsz.
   - (* unimplemented *)
     destruct Hpl as [Hi E].
     destruct (R32 i Hi) as (tr & Er & S1 & S2); rewrite ?E; cbn [s_val]; try reflexivity.
     exists tr. rewrite Er, E. repeat split; auto.
   - (* I/O *)
-    destruct Hpl as [Hi E]. destruct Hok as (Hk & Ha & Hlt).
+    destruct Hpl as [Hi E]. destruct Hok as (Hk & Hkm & Hm & Ha & Hlt).
     assert (Ha4 : a mod 4 = 0) by (apply (mod_pow2_le a 2 k); [lia|exact Ha]).
-    change (2 ^ 32) with 4294967296 in *.
     assert (H1 : 1 < 2 ^ k) by (apply N.lt_le_trans with (2 ^ 2); [reflexivity|apply N.pow_le_mono_r; lia]).
+    assert (Hlt32 : a + 1 < 2 ^ 32).
+    { apply N.lt_le_trans with (2 ^ m); [|apply N.pow_le_mono_r; lia].
+      apply (field_bound k m a 1); try assumption; lia. }
+    assert (Hlt32' : a < 2 ^ 32) by lia.
     destruct (R32 i Hi) as (tr & Er & S1 & S2); rewrite ?E; cbn [s_val].
-    + lia.
-    + rewrite land_7. apply N.eqb_neq. lia.
-    + exists tr. rewrite Er, E. cbn [s_val]. rewrite (slot_rb 1 k a 1 Ha H1).
-      destruct (size_io k Hk) as [Hs Hnz].
-      rewrite (decode_io a 0 _ Ha4 Hlt Hnz), Hs. repeat split; auto.
+    + exact Hlt32.
+    + rewrite land_7. apply N.eqb_neq. clear - Ha4. lia.
+    + exists tr. rewrite Er, E. cbn [s_val]. rewrite (slot_rb 1 k m a 1 ltac:(lia) Ha Hlt H1).
+      unfold ok_io in Hsz. apply andb_prop in Hsz. destruct Hsz as [Hs Hnz].
+      apply N.eqb_eq in Hs. apply negb_true_iff, N.eqb_neq in Hnz.
+      rewrite (decode_io szf a 0 _ Ha4 Hlt32' Hnz), Hs. repeat split; auto.
   - (* memory, one register *)
-    destruct Hpl as [Hi E]. destruct Hok as (Hty & Hk & Ha & Hlt).
+    destruct Hpl as [Hi E]. destruct Hok as (Hty & Hk & Hkm & Hm & Ha & Hlt).
     assert (Ha16 : a mod 16 = 0) by (apply (mod_pow2_le a 4 k); [lia|exact Ha]).
-    assert (Ht : tbits ty pf < 16) by (unfold tbits; destruct pf; lia).
+    assert (Ht : tbits ty pf < 16) by (apply tbits_lt; lia).
     assert (Ht8 : tbits ty pf mod 8 <> 4) by (unfold tbits; destruct pf; lia).
     pose proof (pow2_le_16 k ltac:(lia)) as H16.
-    change (2 ^ 32) with 4294967296 in *.
+    assert (Htk : tbits ty pf < 2 ^ k) by lia.
+    assert (Hlt32 : a + tbits ty pf < 2 ^ 32).
+    { apply N.lt_le_trans with (2 ^ m); [|apply N.pow_le_mono_r; lia].
+      apply (field_bound k m a _); try assumption; lia. }
+    assert (Hlt32' : a < 2 ^ 32) by lia.
     destruct (R32 i Hi) as (tr & Er & S1 & S2); rewrite ?E; cbn [s_val].
-    + lia.
-    + rewrite land_7. apply N.eqb_neq. lia.
-    + exists tr. rewrite Er, E. cbn [s_val]. rewrite (slot_rb (2 + ty) k a (tbits ty pf) Ha ltac:(lia)).
-      destruct (size_mem32 k (tbits ty pf) Hk Ht) as [Hs Hnz].
-      rewrite (decode_mem ty pf a 0 _ ltac:(lia) Ha16 Hlt Hnz), Hs.
+    + exact Hlt32.
+    + rewrite land_7. apply N.eqb_neq. clear - Ha16 Ht8. lia.
+    + exists tr. rewrite Er, E. cbn [s_val]. rewrite (slot_rb (2 + ty) k m a (tbits ty pf) ltac:(lia) Ha Hlt Htk).
+      unfold ok_mem32 in Hsz. apply andb_prop in Hsz. destruct Hsz as [Hs Hnz].
+      apply N.eqb_eq in Hs. apply negb_true_iff, N.eqb_neq in Hnz.
+      rewrite (decode_mem szf ty pf a 0 _ ltac:(lia) Ha16 Hlt32' Hnz), Hs.
       rewrite N.shiftl_0_l, N.lor_0_r. repeat split; auto.
   - (* memory, two registers *)
-    destruct Hpl as (Hi & E & E1). destruct Hok as (Hk & Ha & Hlt).
+    destruct Hpl as (Hi & E & E1). destruct Hok as (Hk & Hkm & Hm & Ha & Hlt).
     set (alo := a mod 2 ^ 32) in *. set (ahi := a / 2 ^ 32) in *.
     assert (Ha16 : alo mod 16 = 0).
     { unfold alo. apply (mod_mod_pow2 a 32 4). apply (mod_pow2_le a 4 k); [lia|exact Ha]. }
     assert (Hlo : alo < 2 ^ 32) by (apply N.mod_lt; discriminate).
+    assert (Hlt64 : a < 2 ^ 64) by (apply N.lt_le_trans with (2 ^ m); [exact Hlt|apply N.pow_le_mono_r; lia]).
     assert (Hhi : ahi < 2 ^ 32).
-    { apply N.div_lt_upper_bound; [discriminate|]. rewrite <- N.pow_add_r. exact Hlt. }
-    assert (Ht : tbits 2 pf < 16) by (unfold tbits; destruct pf; lia).
+    { apply N.div_lt_upper_bound; [discriminate|]. rewrite <- N.pow_add_r. exact Hlt64. }
+    assert (Ht : tbits 2 pf < 16) by (apply tbits_lt; lia).
     assert (Ht8 : tbits 2 pf mod 8 = 4) by (unfold tbits; destruct pf; reflexivity).
     assert (Hj : 4 <= N.min k 32) by lia.
     pose proof (pow2_le_16 _ Hj) as H16.
     assert (Hloj : alo mod 2 ^ N.min k 32 = 0).
     { unfold alo. apply mod_mod_pow2. apply (mod_pow2_le a _ k); [lia|exact Ha]. }
+    pose proof (lo_half_bound a m Hlt) as Hlom. fold alo in Hlom.
     pose proof (div_pow2_mod a k Ha) as Hhij. fold ahi in Hhij.
+    pose proof (hi_half_bound a m Hlt) as Hhim. fold ahi in Hhim.
     assert (Ea : alo + ahi * 2 ^ 32 = a)
       by (unfold alo, ahi; rewrite N.mul_comm, N.add_comm; symmetry; apply N.div_mod; apply N.pow_nonzero; discriminate).
     clearbody alo ahi.
@@ -652,28 +775,31 @@ Proof.
     + exact Hhi.
     + rewrite land_7. apply N.eqb_eq. exact Hm8.
     + exists tr. rewrite Er, E, E1. cbn [s_val].
-      rewrite (slot_rb 4 (N.min k 32) alo (tbits 2 pf) Hloj Ht2).
+      rewrite (slot_rb 4 (N.min k 32) (N.min m 32) alo (tbits 2 pf) ltac:(clear - Hkm; lia) Hloj Hlom Ht2).
       rewrite <- (N.add_0_r ahi) at 2.
-      rewrite (slot_rb 5 (k - 32) ahi 0 Hhij ltac:(apply N.neq_0_lt_0, N.pow_nonzero; discriminate)).
-      fold (mask64 (tbits 2 pf) k).
-      destruct (size_mem64 k (tbits 2 pf) Hk Ht) as [Hs Hnz].
-      rewrite (decode_mem 2 pf alo ahi _ ltac:(clear; lia) Ha16 Hlo Hnz), Hs.
+      rewrite (slot_rb 5 (k - 32) (m - 32) ahi 0 ltac:(clear - Hkm; lia) Hhij Hhim
+                 ltac:(apply N.neq_0_lt_0, N.pow_nonzero; discriminate)).
+      fold (mask64 (tbits 2 pf) k m).
+      unfold ok_mem64 in Hsz. apply andb_prop in Hsz. destruct Hsz as [Hs Hnz].
+      apply N.eqb_eq in Hs. apply negb_true_iff, N.eqb_neq in Hnz.
+      rewrite (decode_mem szf 2 pf alo ahi _ ltac:(clear; lia) Ha16 Hlo Hnz), Hs.
       rewrite (lor_shiftl_add alo ahi 32 Hlo), Ea.
       repeat split; auto.
 Qed.
 
 Definition bars_lt32 (d : pcifn) : Prop := forall j, j < 6 -> s_val (bar_at d j) < 2 ^ 32.
 
-(* ---- the repaired code: full statement ---- *)
+(* ---- the code as it is now: full statement ---- *)
 Theorem bar_info_correct m d i s :
   lenN (f_bars d) = 6 -> f_cmd d < 65536 -> spec_ok s -> placed d i s ->
   exists tr, bar_info m d i = (Ok (spec_truth s), d, tr)
     /\ sizing_writes_safe tr = true /\ decode_safe (bar_vals d) d tr = true.
 Proof.
   intros Hlen Hc Hok Hpl.
-  apply (probe_core (bar_info m) (fun d => d) d i s); auto.
-  - intros j Hj Hv H. apply bar_info_run_not64; auto.
-  - intros j Hj Hv Hv1 H. apply bar_info_run_64; auto.
+  apply (probe_core bar_size (bar_info m) (fun d => d) d i s); auto.
+  - intros j Hj Hv H. apply (bar_info_run_not64 bar_size); auto.
+  - intros j Hj Hv Hv1 H. apply (bar_info_run_64 bar_size); auto.
+  - apply size_fact_now. exact Hok.
 Qed.
 
 (* probing ANY register (well-formed or not) leaves the function exactly as it was, and no sizing
@@ -683,25 +809,65 @@ Theorem bar_info_no_side_effects m d i :
   exists r tr, bar_info m d i = (r, d, tr)
     /\ sizing_writes_safe tr = true /\ decode_safe (bar_vals d) d tr = true.
 Proof.
-  intros Hlen Hi Hc Hv.
+  intros Hlen Hi Hc Hv. unfold bar_info.
   destruct (N.land (s_val (bar_at d i)) 7 =? 4) eqn:H64.
   - destruct (N.eq_dec i 5) as [->|Hne].
-    + destruct (bar_info_run_err m d H64) as (tr & E & S). eauto.
-    + destruct (bar_info_run_64 m d i Hlen ltac:(lia) Hc (Hv i Hi) (Hv (i + 1) ltac:(lia)) H64) as (tr & E & S). eauto.
-  - destruct (bar_info_run_not64 m d i Hlen Hi Hc (Hv i Hi) H64) as (tr & E & S). eauto.
+    + destruct (bar_info_run_err bar_size m d H64) as (tr & E & S). eauto.
+    + destruct (bar_info_run_64 bar_size m d i Hlen ltac:(lia) Hc (Hv i Hi) (Hv (i + 1) ltac:(lia)) H64) as (tr & E & S). eauto.
+  - destruct (bar_info_run_not64 bar_size m d i Hlen Hi Hc (Hv i Hi) H64) as (tr & E & S). eauto.
 Qed.
 
-(* ---- the code before the repairs ---- *)
-(* what it does to the command register, exactly *)
+(* ---- the code after F5a/F5b but before F11 ---- *)
+(* F11: an I/O BAR with a 16-bit decoder (upper 16 address bits hard-wired zero), 0x100 bytes at
+   0xc000: lowest writable address bit 2^8, reported size 0xffff0100.  Likewise a below-1-MiB memory
+   BAR with 20 address bits and a 64-bit BAR with 40 address lines. *)
+Definition wit_io16 : pcifn :=
+  mkFn 1 16 [mkSlot 1 4294902015 49153; dslot; dslot; dslot; dslot; dslot] [].
+Theorem bar_info_f11_prefix_refuted :
+  lenN (f_bars wit_io16) = 6 /\ f_cmd wit_io16 < 65536 /\ spec_ok (SIo 8 16 49152)
+  /\ placed wit_io16 0 (SIo 8 16 49152)
+  /\ spec_truth (SIo 8 16 49152) = Some (BarIO 49152 256)
+  /\ fst (fst (bar_info_f11_prefix Debug wit_io16 0)) = Ok (Some (BarIO 49152 4294902016))
+  /\ fst (fst (bar_info_prefix Debug wit_io16 0)) = Ok (Some (BarIO 49152 4294902016))
+  /\ fst (fst (bar_info Debug wit_io16 0)) = Ok (Some (BarIO 49152 256)).
+Proof. vm_compute. repeat split; try reflexivity; intros H; discriminate H. Qed.
+Theorem bar_info_f11_prefix_refuted_mem :
+  let a2 := 254 * 4294967296 + 4261412864 in
+  let d1 := mkFn 2 16 [dslot; mkSlot 3 (fmask 12 20) (819200 + 2); dslot; dslot; dslot; dslot] [] in
+  let d2 := mkFn 6 16 [dslot; dslot; mkSlot 4 (fmask 24 32) (4261412864 + 12); mkSlot 5 (fmask 0 8) 254; dslot; dslot] [] in
+  spec_ok (SMem 1 false 12 20 819200) /\ placed d1 1 (SMem 1 false 12 20 819200)
+  /\ fst (fst (bar_info_f11_prefix Debug d1 1)) <> Ok (Some (BarMem 1 false 819200 4096))
+  /\ fst (fst (bar_info Debug d1 1)) = Ok (Some (BarMem 1 false 819200 4096))
+  /\ spec_ok (SMem64 true 24 40 a2) /\ placed d2 2 (SMem64 true 24 40 a2)
+  /\ fst (fst (bar_info_f11_prefix Debug d2 2)) <> Ok (Some (BarMem 2 true a2 16777216))
+  /\ fst (fst (bar_info Debug d2 2)) = Ok (Some (BarMem 2 true a2 16777216)).
+Proof. cbv zeta. vm_compute. repeat split; try reflexivity; intros H; discriminate H. Qed.
+(* what IS true of it: everything, on the full decoders *)
+Theorem bar_info_f11_prefix_partial m d i s :
+  lenN (f_bars d) = 6 -> f_cmd d < 65536 -> spec_ok s -> spec_full s -> placed d i s ->
+  exists tr, bar_info_f11_prefix m d i = (Ok (spec_truth s), d, tr)
+    /\ sizing_writes_safe tr = true /\ decode_safe (bar_vals d) d tr = true.
+Proof.
+  intros Hlen Hc Hok Hfull Hpl.
+  apply (probe_core bar_size_prefix (bar_info_f11_prefix m) (fun d => d) d i s); auto.
+  - intros j Hj Hv H. apply (bar_info_run_not64 bar_size_prefix); auto.
+  - intros j Hj Hv Hv1 H. apply (bar_info_run_64 bar_size_prefix); auto.
+  - apply size_fact_prefix; assumption.
+Qed.
+
+(* ---- the code before all repairs ---- *)
+(* what it does to the command register, exactly (full decoders: its size computation is the one
+   before F11) *)
 Theorem bar_info_prefix_partial m d i s :
-  lenN (f_bars d) = 6 -> f_cmd d < 65536 -> spec_ok s -> placed d i s ->
+  lenN (f_bars d) = 6 -> f_cmd d < 65536 -> spec_ok s -> spec_full s -> placed d i s ->
   exists tr, bar_info_prefix m d i = (Ok (spec_truth s), set_cmd d (cmd_after_prefix (f_cmd d)), tr)
     /\ sizing_writes_safe tr = true /\ decode_safe (bar_vals d) d tr = true.
 Proof.
-  intros Hlen Hc Hok Hpl.
-  apply (probe_core (bar_info_prefix m) (fun d => set_cmd d (cmd_after_prefix (f_cmd d))) d i s); auto.
+  intros Hlen Hc Hok Hfull Hpl.
+  apply (probe_core bar_size_prefix (bar_info_prefix m) (fun d => set_cmd d (cmd_after_prefix (f_cmd d))) d i s); auto.
   - intros j Hj Hv H. apply bar_info_prefix_run_not64; auto.
   - intros j Hj Hv Hv1 H. apply bar_info_prefix_run_64; auto.
+  - apply size_fact_prefix; assumption.
 Qed.
 
 Lemma land_ldiff_r a b c : N.land a (N.ldiff b c) = N.ldiff (N.land a b) c.
@@ -721,16 +887,17 @@ Proof.
   rewrite <- N.land_assoc. change (N.land 1919 3) with 3. rewrite H, N.lor_0_r. reflexivity.
 Qed.
 
-(* the strongest true statement for the old code: a command value made of named flags only
-   (or with decoding already disabled), and the BAR fits (placed: a 64-bit BAR starts below slot 5) *)
+(* the strongest true statement for the oldest code: a command value made of named flags only
+   (or with decoding already disabled), a full decoder, and the BAR fits (placed: a 64-bit BAR
+   starts below slot 5) *)
 Theorem bar_info_prefix_partial_restores m d i s :
-  lenN (f_bars d) = 6 -> f_cmd d < 65536 -> spec_ok s -> placed d i s ->
+  lenN (f_bars d) = 6 -> f_cmd d < 65536 -> spec_ok s -> spec_full s -> placed d i s ->
   N.land (f_cmd d) CMD_NAMED = f_cmd d \/ N.land (f_cmd d) CMD_DECODE = 0 ->
   exists tr, bar_info_prefix m d i = (Ok (spec_truth s), d, tr)
     /\ sizing_writes_safe tr = true /\ decode_safe (bar_vals d) d tr = true.
 Proof.
-  intros Hlen Hc Hok Hpl Hcmd.
-  destruct (bar_info_prefix_partial m d i s Hlen Hc Hok Hpl) as (tr & E & S).
+  intros Hlen Hc Hok Hfull Hpl Hcmd.
+  destruct (bar_info_prefix_partial m d i s Hlen Hc Hok Hfull Hpl) as (tr & E & S).
   exists tr. split; [|exact S]. rewrite E. f_equal. f_equal.
   assert (Ec : cmd_after_prefix (f_cmd d) = f_cmd d)
     by (destruct Hcmd; [apply cmd_after_prefix_named|apply cmd_after_prefix_decode_off]; assumption).
@@ -741,8 +908,8 @@ Qed.
 Definition wit_cmd : pcifn :=
   mkFn 131 16 [mkSlot 2 16383 4261412864; dslot; dslot; dslot; dslot; dslot] [].
 Theorem bar_info_prefix_refuted_cmd :
-  lenN (f_bars wit_cmd) = 6 /\ f_cmd wit_cmd < 65536 /\ spec_ok (SMem 0 false 14 4261412864)
-  /\ placed wit_cmd 0 (SMem 0 false 14 4261412864)
+  lenN (f_bars wit_cmd) = 6 /\ f_cmd wit_cmd < 65536 /\ spec_ok (SMem 0 false 14 32 4261412864)
+  /\ placed wit_cmd 0 (SMem 0 false 14 32 4261412864)
   /\ fst (fst (bar_info_prefix Debug wit_cmd 0)) = Ok (Some (BarMem 0 false 4261412864 16384))
   /\ f_cmd (snd (fst (bar_info_prefix Debug wit_cmd 0))) = 3
   /\ f_cmd (snd (fst (bar_info_prefix Debug wit_cmd 0))) <> f_cmd wit_cmd.
@@ -774,14 +941,14 @@ Proof. vm_compute. repeat split. Qed.
 
 From Coq Require Import ZifyNat.
 (* ===================== 5b. bars(): a whole function ===================== *)
-Definition spec_two (s : barspec) : bool := match s with SMem64 _ _ _ => true | _ => false end.
+Definition spec_two (s : barspec) : bool := match s with SMem64 _ _ _ _ => true | _ => false end.
 Definition layout_slots (L : list barspec) : list slot := concat (map spec_slots L).
 Definition layout_truth (L : list barspec) : list (option barinfo) :=
   concat (map (fun s => spec_truth s :: if spec_two s then [None] else []) L).
 
 Lemma takes_two_truth s : spec_ok s -> takes_two (spec_truth s) = spec_two s.
 Proof.
-  destruct s as [|k a|ty pf k a|pf k a]; cbn; auto. intros (H & _). apply N.eqb_neq. lia.
+  destruct s as [|k m0 a|ty pf k m0 a|pf k m0 a]; cbn; auto. intros (H & _). apply N.eqb_neq. lia.
 Qed.
 Lemma skipn_nth {A} (d : A) : forall n l x r, skipn n l = x :: r -> nth n l d = x /\ skipn (S n) l = r.
 Proof.
@@ -830,7 +997,7 @@ Proof.
     assert (Hpl : placed d (N.of_nat n) s /\ skipn (n + (if spec_two s then 2 else 1)) (f_bars d) = layout_slots L
                   /\ (n + (if spec_two s then 2 else 1) <= 6)%nat).
     { unfold placed, bar_at, nthN. rewrite Nat2N.id.
-      destruct s as [|k a|ty pf k a|pf k a]; cbn [spec_slots spec_two app] in *;
+      destruct s as [|k m0 a|ty pf k m0 a|pf k m0 a]; cbn [spec_slots spec_two app] in *;
         inversion Ex; subst x0 r0;
         destruct (skipn_nth dslot _ _ _ _ Hsk) as [E1 E2].
       1-3: (repeat split; [lia|exact E1|rewrite Nat.add_1_r; exact E2|lia]).
@@ -886,7 +1053,7 @@ Qed.
    lowest writable address bit 2^8 but is reported with size 0xffff0100, because the size is taken
    as the two's complement of the whole mask instead of its lowest set bit. *)
 Example io_bar_16bit_decoder_observation :
-  fst (fst (bar_info Debug (mkFn 1 16 [mkSlot 1 4294902015 49153; dslot; dslot; dslot; dslot; dslot] []) 0))
+  fst (fst (bar_info_f11_prefix Debug (mkFn 1 16 [mkSlot 1 4294902015 49153; dslot; dslot; dslot; dslot; dslot] []) 0))
   = Ok (Some (BarIO 49152 4294902016)).
 Proof. vm_compute. reflexivity. Qed.
 
